@@ -213,7 +213,7 @@ def tasks_for(pid, tier):
         return sx("time_c12")
     if pid == "C11":
         after = list(range(0, 12))
-        other = list(range(12, 22))
+        other = list(range(12, 24))
         if q:
             return sx("heap_c11") + ds("timer", 1, after + other, jobs=5) + ds("timer", 2, [2, 6, 10, 17], jobs=6)
         return sx("heap_c11") + ds("timer", 2, after + other, jobs=8)
